@@ -182,12 +182,12 @@ class Scheduler:
                     absorb(i, r)
                 elif not w['p'].is_alive():
                     i, sl = w['busy']; w['busy'] = None; absorb(i, {'status': 'error', 'error': 'worker process died (exit code %s)' % w['p'].exitcode})
-                elif now - w['t0'] > w['busy'][1] + 240:
+                elif now - w['t0'] > w['busy'][1] + 900:
                     # a slice overran by minutes: one path does not terminate in reasonable time
                     i, sl = w['busy']; w['busy'] = None
                     try: w['p'].kill()
                     except Exception: pass
-                    absorb(i, {'status': 'inconclusive', 'error': 'a worker overran its time slice by 240 s (one path too long)'})
+                    absorb(i, {'status': 'inconclusive', 'error': 'a worker overran its time slice by 900 s (one path too long)'})
             # replace dead workers
             for k, w in enumerate(s.workers):
                 if not w['p'].is_alive() and w['busy'] is None:
